@@ -12,7 +12,7 @@ go build ./... && go build -tags verif ./... || { echo "SEED $d: DOES-NOT-COMPIL
 go test -vet=off -count=1 ./... >/tmp/seedverify.$$.log 2>&1 || { echo "SEED $d: BASELINE-FAILS-WITH-PATCH"; tail -5 /tmp/seedverify.$$.log; git checkout -q -- .; git clean -fdq; exit 1; }
 cp "$d/demo_test.go" ./zz_seeded_demo_test.go
 if timeout 300 go test -vet=off -count=1 -run 'TestSeededDemo' . >/tmp/seedverify.$$.log 2>&1; then echo "SEED $d: DEMO-PASSES-WITH-PATCH (invalid)"; git checkout -q -- .; git clean -fdq; exit 1; fi
-git checkout -q -- .
+git checkout -q -- . ; git clean -fdq -e zz_seeded_demo_test.go   # patches may add files
 if ! timeout 300 go test -vet=off -count=1 -run 'TestSeededDemo' . >/tmp/seedverify.$$.log 2>&1; then echo "SEED $d: DEMO-FAILS-WITHOUT-PATCH (invalid)"; tail -5 /tmp/seedverify.$$.log; git clean -fdq; exit 1; fi
 git clean -fdq
 echo "SEED $d: VALID"
